@@ -1,1 +1,568 @@
-/-! Property theorems for C06 (only property-level statements and non-vacuity examples live here). -/
+import SpoxModel.Model.MLInfer
+import SpoxModel.Model.RtShape
+import SpoxModel.Lemmas.MLShape
+import SpoxModel.Generated.MLOverrides
+/-!
+# C06 — reported types are sound: runtime values always conform to them
+
+For every operator `X` whose `infer_output_types` spox writes by hand:
+
+  `X_sound : inferX a tys = .ok outs → (inputs conform) → rtX a vals = some w → conformsAll w outs`
+
+for all ranks, all sizes of unknown dims and all attribute values. Where the pinned code is unsound
+the full statement is refuted on a concrete witness (`X_counterexample`, by `decide`) and
+`X_sound_partial` states what does hold, with the excluding hypothesis explicit.
+-/
+namespace C06M
+
+/-! ## The override table (tie G) -/
+
+/-- The `infer_output_types` overrides this model covers. -/
+def modelledOverrides : List (String × String) :=
+  [("ai.onnx.ml.v3", "ArrayFeatureExtractor"), ("ai.onnx.ml.v3", "Binarizer"),
+   ("ai.onnx.ml.v3", "CategoryMapper"), ("ai.onnx.ml.v3", "Imputer"),
+   ("ai.onnx.ml.v3", "LinearRegressor"), ("ai.onnx.ml.v3", "Normalizer"),
+   ("ai.onnx.ml.v3", "OneHotEncoder"), ("ai.onnx.ml.v3", "Scaler"),
+   ("ai.onnx.ml.v3", "TreeEnsembleClassifier"), ("ai.onnx.ml.v3", "TreeEnsembleRegressor"),
+   ("ai.onnx.v17", "Compress"), ("ai.onnx.v17", "Loop")]
+
+/-- Every override found in the source on this run is modelled, and nothing else is. -/
+theorem overrides_all_modelled : Generated.MLOverrides.overrides = modelledOverrides := by decide
+
+/-! ## ai.onnx.ml operators -/
+
+theorem binarizer_sound (x : ITy) (v : RtVal) (outs : List ITy) (w : List RtVal)
+    (hi : inferBinarizer x = .ok outs) (hc : conforms v x = true) (hr : rtBinarizer v = some w) :
+    conformsAll w outs = true := by
+  simp only [inferBinarizer, Res.ok.injEq] at hi
+  simp only [rtBinarizer, Option.some.injEq] at hr
+  subst hi hr
+  simp [conformsAll, hc]
+
+theorem imputer_sound (impF impI : Option Nat) (x : ITy) (v : RtVal) (outs : List ITy) (w : List RtVal)
+    (hi : inferImputer impF impI x = .ok outs) (hc : conforms v x = true) (hr : rtImputer v = some w) :
+    conformsAll w outs = true := by
+  simp only [rtImputer, Option.some.injEq] at hr
+  subst hr
+  unfold inferImputer at hi
+  split at hi
+  · simp only [Res.ok.injEq] at hi; subst hi; simp [conformsAll, conforms]
+  · split at hi
+    · simp at hi
+    · split at hi
+      · simp at hi
+      · simp only [Res.ok.injEq] at hi; subst hi; simp [conformsAll, hc]
+
+theorem scaler_sound (scale offset : Option Nat) (x : ITy) (v : RtVal) (outs : List ITy) (w : List RtVal)
+    (hi : inferScaler scale offset x = .ok outs) (hc : conforms v x = true) (hr : rtScaler v = some w) :
+    conformsAll w outs = true := by
+  simp only [rtScaler, Option.some.injEq] at hr
+  subst hr
+  unfold inferScaler at hi
+  split at hi
+  · simp only [Res.ok.injEq] at hi; subst hi; simp [conformsAll, conforms]
+  · split at hi
+    · split at hi
+      · simp at hi
+      · split at hi
+        · simp at hi
+        · simp only [Res.ok.injEq] at hi; subst hi
+          simp only [conforms, Bool.and_eq_true] at hc
+          simp [conformsAll, conforms, hc.2]
+    · simp at hi
+
+theorem categoryMapper_sound (a b : Option Nat) (x : ITy) (v : RtVal) (outs : List ITy) (w : List RtVal)
+    (hi : inferCategoryMapper a b x = .ok outs) (hc : conforms v x = true)
+    (hr : rtCategoryMapper v = some w) : conformsAll w outs = true := by
+  rcases x with _ | ⟨e, _ | ds⟩
+  · simp only [inferCategoryMapper, ranked, Res.ok.injEq] at hi; subst hi
+    unfold rtCategoryMapper at hr; split at hr <;> simp at hr <;> subst hr <;> simp [conformsAll, conforms]
+  · simp only [inferCategoryMapper, ranked, Res.ok.injEq] at hi; subst hi
+    unfold rtCategoryMapper at hr; split at hr <;> simp at hr <;> subst hr <;> simp [conformsAll, conforms]
+  · simp only [conforms, Bool.and_eq_true, beq_iff_eq] at hc
+    obtain ⟨he, hs⟩ := hc
+    rcases a with _ | a <;> rcases b with _ | b <;> simp only [inferCategoryMapper, ranked] at hi
+    · simp at hi
+    · simp at hi
+    · simp at hi
+    · by_cases hab : a = b
+      · cases e <;> simp [hab] at hi <;> subst hi <;>
+          simp [rtCategoryMapper, he] at hr <;> subst hr <;> simp [conformsAll, conforms, tensor, hs]
+      · simp [hab] at hi
+
+theorem oneHotEncoder_sound (a b : Option Nat) (x : ITy) (v : RtVal) (outs : List ITy) (w : List RtVal)
+    (hi : inferOneHotEncoder a b x = .ok outs) (hc : conforms v x = true)
+    (hr : rtOneHotEncoder a b v = some w) : conformsAll w outs = true := by
+  rcases x with _ | ⟨e, _ | ds⟩
+  · simp only [inferOneHotEncoder, ranked, Res.ok.injEq] at hi; subst hi
+    unfold rtOneHotEncoder at hr; split at hr <;> simp at hr <;> subst hr <;> simp [conformsAll, conforms]
+  · simp only [inferOneHotEncoder, ranked, Res.ok.injEq] at hi; subst hi
+    unfold rtOneHotEncoder at hr; split at hr <;> simp at hr <;> subst hr <;> simp [conformsAll, conforms]
+  · simp only [conforms, Bool.and_eq_true] at hc
+    have hs := hc.2
+    rcases a with _ | a <;> rcases b with _ | b <;>
+      simp [inferOneHotEncoder, ranked, rtOneHotEncoder] at hi hr <;>
+      subst hi <;> subst hr <;>
+      simp [conformsAll, conforms, tensor, dimsOk_snoc_const _ hs]
+
+theorem treeEnsembleRegressor_sound (nT : Option Nat) (x : ITy) (v : RtVal) (outs : List ITy)
+    (w : List RtVal) (hi : inferTreeEnsembleRegressor nT x = .ok outs) (hc : conforms v x = true)
+    (hr : rtTreeEnsembleRegressor nT v = some w) : conformsAll w outs = true := by
+  obtain ⟨ve, vs⟩ := v
+  rcases nT with _ | t
+  · unfold rtTreeEnsembleRegressor at hr; split at hr <;> simp_all
+  · rcases vs with _ | ⟨n, _ | ⟨c, _ | ⟨c', r⟩⟩⟩ <;> simp [rtTreeEnsembleRegressor] at hr
+    subst hr
+    rcases x with _ | ⟨e, _ | ds⟩
+    · simp only [inferTreeEnsembleRegressor, ranked, Res.ok.injEq] at hi; subst hi
+      simp [conformsAll, conforms, tensor, dimsOk]
+    · simp only [inferTreeEnsembleRegressor, ranked, Res.ok.injEq] at hi; subst hi
+      simp [conformsAll, conforms, tensor, dimsOk]
+    · simp only [conforms, Bool.and_eq_true] at hc
+      have hs := hc.2
+      rcases ds with _ | ⟨d0, _ | ⟨d1, _ | ⟨d2, r⟩⟩⟩ <;> simp [dimsOk] at hs
+      simp only [inferTreeEnsembleRegressor, ranked, Res.ok.injEq] at hi; subst hi
+      simp [conformsAll, conforms, tensor, dimsOk, hs.1]
+
+theorem arrayFeatureExtractor_sound (x y : ITy) (vx vy : RtVal) (outs : List ITy) (w : List RtVal)
+    (hi : inferArrayFeatureExtractor x y = .ok outs) (hcx : conforms vx x = true)
+    (hcy : conforms vy y = true) (hr : rtArrayFeatureExtractor vx vy = some w) :
+    conformsAll w outs = true := by
+  obtain ⟨xe, xs⟩ := vx
+  obtain ⟨ye, ys⟩ := vy
+  rcases x with _ | ⟨e, _ | ds⟩
+  · simp only [inferArrayFeatureExtractor, ranked, Res.ok.injEq] at hi; subst hi
+    unfold rtArrayFeatureExtractor at hr; split at hr <;> simp at hr <;> subst hr <;> simp [conformsAll, conforms]
+  · simp only [inferArrayFeatureExtractor, ranked, Res.ok.injEq] at hi; subst hi
+    unfold rtArrayFeatureExtractor at hr; split at hr <;> simp at hr <;> subst hr <;> simp [conformsAll, conforms]
+  · rcases y with _ | ⟨e', _ | ds'⟩
+    · simp only [inferArrayFeatureExtractor, ranked, Res.ok.injEq] at hi; subst hi
+      unfold rtArrayFeatureExtractor at hr; split at hr <;> simp at hr <;> subst hr <;> simp [conformsAll, conforms]
+    · simp only [inferArrayFeatureExtractor, ranked, Res.ok.injEq] at hi; subst hi
+      unfold rtArrayFeatureExtractor at hr; split at hr <;> simp at hr <;> subst hr <;> simp [conformsAll, conforms]
+    · simp only [conforms, Bool.and_eq_true, beq_iff_eq] at hcx hcy
+      obtain ⟨hex, hsx⟩ := hcx
+      obtain ⟨_, hsy⟩ := hcy
+      -- Y must have rank 1 for the inference to succeed
+      rcases ds' with _ | ⟨yl, _ | ⟨yl', r'⟩⟩
+      · rcases ds with _ | ⟨d0, _ | ⟨d1, r⟩⟩ <;> simp [inferArrayFeatureExtractor, ranked] at hi
+      · rcases ys with _ | ⟨k, _ | ⟨k', q⟩⟩ <;> simp [dimsOk] at hsy
+        rcases ds with _ | ⟨d0, _ | ⟨d1, r⟩⟩
+        · simp [inferArrayFeatureExtractor, ranked] at hi
+        · rcases xs with _ | ⟨n0, _ | ⟨n1, q⟩⟩ <;> simp [dimsOk] at hsx
+          simp only [inferArrayFeatureExtractor, ranked, Res.ok.injEq] at hi; subst hi
+          simp only [rtArrayFeatureExtractor, Option.some.injEq] at hr; subst hr
+          simp [conformsAll, conforms, tensor, dimsOk, numel_singleton, hex, hsy]
+        · rcases xs with _ | ⟨n0, _ | ⟨n1, q⟩⟩ <;> simp [dimsOk] at hsx
+          simp only [inferArrayFeatureExtractor, ranked, Res.ok.injEq] at hi; subst hi
+          simp only [rtArrayFeatureExtractor, Option.some.injEq] at hr; subst hr
+          have h1 : dimsOk (n0 :: n1 :: q) (d0 :: d1 :: r) = true := by simp [dimsOk, hsx]
+          have h2 : dimsOk [numel [k]] [yl] = true := by simp [dimsOk, numel_singleton, hsy]
+          have := dimsOk_append (dimsOk_dropLast h1) h2
+          simp only [List.dropLast_cons₂, List.cons_append] at this
+          simp [conformsAll, conforms, tensor, hex, this]
+      · rcases ds with _ | ⟨d0, _ | ⟨d1, r⟩⟩ <;> simp [inferArrayFeatureExtractor, ranked] at hi
+
+/-- The statement of soundness for LinearRegressor, as a proposition about an attribute value and an
+    input type (used by the partial theorem and its refutation). -/
+def LinearRegressorSound (targets : Nat) (x : ITy) : Prop :=
+  ∀ (v : RtVal) (outs : List ITy) (w : List RtVal),
+    inferLinearRegressor targets x = .ok outs → conforms v x = true →
+    rtLinearRegressor targets v = some w → conformsAll w outs = true
+
+/-- The excluding hypothesis: the last input dim is not a constant different from `targets`. -/
+def lastDimIsTargets (targets : Nat) (x : ITy) : Prop :=
+  ∀ e ds c, x = some ⟨e, some ds⟩ → ds.getLast? = some (.const c) → c = targets
+
+theorem linearRegressor_sound_partial (targets : Nat) (x : ITy) (hx : lastDimIsTargets targets x) :
+    LinearRegressorSound targets x := by
+  intro v outs w hi hc hr
+  obtain ⟨ve, vs⟩ := v
+  rcases x with _ | ⟨e, _ | ds⟩
+  · simp only [inferLinearRegressor, ranked, Res.ok.injEq] at hi; subst hi
+    unfold rtLinearRegressor at hr; split at hr <;> simp at hr <;> subst hr <;> simp [conformsAll, conforms]
+  · simp only [inferLinearRegressor, ranked, Res.ok.injEq] at hi; subst hi
+    unfold rtLinearRegressor at hr; split at hr <;> simp at hr <;> subst hr <;> simp [conformsAll, conforms]
+  · simp only [conforms, Bool.and_eq_true] at hc
+    have hs := hc.2
+    rcases ds with _ | ⟨d0, _ | ⟨d1, _ | ⟨d2, r⟩⟩⟩
+    · rcases vs with _ | ⟨n, q⟩ <;> simp [dimsOk] at hs
+      simp [rtLinearRegressor] at hr
+    · rcases vs with _ | ⟨n, _ | ⟨n', q⟩⟩ <;> simp [dimsOk] at hs
+      simp only [inferLinearRegressor, ranked, Res.ok.injEq] at hi; subst hi
+      simp only [rtLinearRegressor, Option.some.injEq] at hr; subst hr
+      cases d0 with
+      | const c =>
+        have := hx e [.const c] c rfl rfl
+        subst this
+        simp only [dimOk_const, beq_iff_eq] at hs
+        simp [conformsAll, conforms, tensor, dimsOk]
+      | named s => simp [conformsAll, conforms, tensor, dimsOk]
+      | anon => simp [conformsAll, conforms, tensor, dimsOk]
+    · rcases vs with _ | ⟨n, _ | ⟨n', _ | ⟨n'', q⟩⟩⟩ <;> simp [dimsOk] at hs
+      simp only [inferLinearRegressor, ranked, Res.ok.injEq] at hi; subst hi
+      simp only [rtLinearRegressor, Option.some.injEq] at hr; subst hr
+      cases d1 with
+      | const c =>
+        have := hx e [d0, .const c] c rfl rfl
+        subst this
+        simp [conformsAll, conforms, tensor, dimsOk, hs.1]
+      | named s => simp [conformsAll, conforms, tensor, dimsOk, hs.1]
+      | anon => simp [conformsAll, conforms, tensor, dimsOk, hs.1]
+    · simp [inferLinearRegressor, ranked] at hi
+
+/-- The pinned routine is unsound: `linear_regressor(x: f32[4,3], targets=1)` reports `f32[4][3]`, the
+    runtime value has shape `(4,1)`. -/
+theorem linearRegressor_counterexample :
+    ¬ LinearRegressorSound 1 (tensor .f32 [.const 4, .const 3]) := by
+  intro h
+  have := h ⟨.f32, [4, 3]⟩ [tensor .f32 [.const 4, .const 3]] [⟨.f32, [4, 1]⟩] (by decide) (by decide) (by decide)
+  revert this; decide
+
+def NormalizerSound (normOk : Bool) (x : ITy) : Prop :=
+  ∀ (v : RtVal) (outs : List ITy) (w : List RtVal),
+    inferNormalizer normOk x = .ok outs → conforms v x = true →
+    rtNormalizer v = some w → conformsAll w outs = true
+
+/-- Holds when the input is `float32` (or untyped): the operator's output is always `tensor(float)`,
+    the routine reports the input's element type. -/
+theorem normalizer_sound_partial (normOk : Bool) (x : ITy)
+    (hx : ∀ t, x = some t → t.e = .f32) : NormalizerSound normOk x := by
+  intro v outs w hi hc hr
+  obtain ⟨ve, vs⟩ := v
+  unfold inferNormalizer at hi
+  split at hi
+  · simp only [Res.ok.injEq] at hi; subst hi
+    rcases x with _ | t
+    · unfold rtNormalizer at hr; split at hr <;> simp at hr <;> subst hr <;> simp [conformsAll, conforms]
+    · have he := hx t rfl
+      simp only [conforms, Bool.and_eq_true, beq_iff_eq] at hc
+      unfold rtNormalizer at hr
+      split at hr <;> simp at hr <;> subst hr <;> simp_all [conformsAll, conforms]
+  · simp at hi
+
+/-- `normalizer(x: f64[N,5])` reports `f64[N][5]` (this is what tests/type_inference pins); the
+    runtime value is `float32`. -/
+theorem normalizer_counterexample :
+    ¬ NormalizerSound true (tensor .f64 [.named "N", .const 5]) := by
+  intro h
+  have := h ⟨.f64, [1, 5]⟩ [tensor .f64 [.named "N", .const 5]] [⟨.f32, [1, 5]⟩] (by decide) (by decide) (by decide)
+  revert this; decide
+
+def TreeEnsembleClassifierSound (classIds labelsStr labelsInt : Option Nat) (x : ITy) : Prop :=
+  ∀ (v : RtVal) (outs : List ITy) (w : List RtVal),
+    inferTreeEnsembleClassifier classIds labelsStr labelsInt x = .ok outs → conforms v x = true →
+    rtTreeEnsembleClassifier labelsStr labelsInt v = some w → conformsAll w outs = true
+
+/-- The number of class labels the runtime uses for the second axis of `Z`. -/
+def nClasses (labelsStr labelsInt : Option Nat) : Option Nat :=
+  match labelsStr with
+  | some k => some k
+  | none => labelsInt
+
+/-- Holds when `len(class_ids)` is absent or equals the number of class labels. -/
+theorem treeEnsembleClassifier_sound_partial (classIds labelsStr labelsInt : Option Nat) (x : ITy)
+    (hx : ∀ n, classIds = some n → nClasses labelsStr labelsInt = some n) :
+    TreeEnsembleClassifierSound classIds labelsStr labelsInt x := by
+  intro v outs w hi hc hr
+  obtain ⟨ve, vs⟩ := v
+  rcases vs with _ | ⟨n, _ | ⟨c, _ | ⟨c', q⟩⟩⟩ <;> simp [rtTreeEnsembleClassifier] at hr
+  have hZ : ∀ k, nClasses labelsStr labelsInt = some k → dimOk k (optDim classIds) = true := by
+    intro k hk
+    rcases classIds with _ | m
+    · simp
+    · have := hx m rfl; rw [hk] at this; cases this; simp
+  rcases labelsStr with _ | ks
+  · rcases labelsInt with _ | ki
+    · simp at hr
+    · simp only [Option.some.injEq] at hr; subst hr
+      have hz := hZ ki rfl
+      rcases x with _ | ⟨e, _ | ds⟩
+      · simp [inferTreeEnsembleClassifier, ranked] at hi; subst hi
+        simp [conformsAll, conforms, tensor, dimsOk, hz]
+      · simp [inferTreeEnsembleClassifier, ranked] at hi; subst hi
+        simp [conformsAll, conforms, tensor, dimsOk, hz]
+      · simp only [conforms, Bool.and_eq_true] at hc
+        have hs := hc.2
+        rcases ds with _ | ⟨d0, _ | ⟨d1, _ | ⟨d2, r⟩⟩⟩ <;> simp [dimsOk] at hs
+        simp [inferTreeEnsembleClassifier, ranked] at hi; subst hi
+        simp [conformsAll, conforms, tensor, dimsOk, hz, hs.1]
+  · have hz := hZ ks rfl
+    simp only [Option.some.injEq] at hr; subst hr
+    rcases x with _ | ⟨e, _ | ds⟩
+    · simp [inferTreeEnsembleClassifier, ranked] at hi; subst hi
+      simp [conformsAll, conforms, tensor, dimsOk, hz]
+    · simp [inferTreeEnsembleClassifier, ranked] at hi; subst hi
+      simp [conformsAll, conforms, tensor, dimsOk, hz]
+    · simp only [conforms, Bool.and_eq_true] at hc
+      have hs := hc.2
+      rcases ds with _ | ⟨d0, _ | ⟨d1, _ | ⟨d2, r⟩⟩⟩ <;> simp [dimsOk] at hs
+      simp [inferTreeEnsembleClassifier, ranked] at hi; subst hi
+      simp [conformsAll, conforms, tensor, dimsOk, hz, hs.1]
+
+/-- Whatever `class_ids` is, the label output `Y` is reported soundly (only `Z`'s second axis is
+    affected by the defect). -/
+theorem treeEnsembleClassifier_Y_sound (classIds labelsStr labelsInt : Option Nat) (x : ITy)
+    (v : RtVal) (outs : List ITy) (w : List RtVal)
+    (hi : inferTreeEnsembleClassifier classIds labelsStr labelsInt x = .ok outs)
+    (hc : conforms v x = true) (hr : rtTreeEnsembleClassifier labelsStr labelsInt v = some w) :
+    ∃ y z ty tz, w = [y, z] ∧ outs = [ty, tz] ∧ conforms y ty = true := by
+  obtain ⟨ve, vs⟩ := v
+  rcases vs with _ | ⟨n, _ | ⟨c, _ | ⟨c', q⟩⟩⟩ <;> simp [rtTreeEnsembleClassifier] at hr
+  rcases labelsStr with _ | ks
+  · rcases labelsInt with _ | ki
+    · simp at hr
+    · simp only [Option.some.injEq] at hr; subst hr
+      rcases x with _ | ⟨e, _ | ds⟩
+      · simp [inferTreeEnsembleClassifier, ranked] at hi; subst hi
+        exact ⟨_, _, _, _, rfl, rfl, by simp [conforms, tensor, dimsOk]⟩
+      · simp [inferTreeEnsembleClassifier, ranked] at hi; subst hi
+        exact ⟨_, _, _, _, rfl, rfl, by simp [conforms, tensor, dimsOk]⟩
+      · simp only [conforms, Bool.and_eq_true] at hc
+        have hs := hc.2
+        rcases ds with _ | ⟨d0, _ | ⟨d1, _ | ⟨d2, r⟩⟩⟩ <;> simp [dimsOk] at hs
+        simp [inferTreeEnsembleClassifier, ranked] at hi; subst hi
+        exact ⟨_, _, _, _, rfl, rfl, by simp [conforms, tensor, dimsOk, hs.1]⟩
+  · simp only [Option.some.injEq] at hr; subst hr
+    rcases x with _ | ⟨e, _ | ds⟩
+    · simp [inferTreeEnsembleClassifier, ranked] at hi; subst hi
+      exact ⟨_, _, _, _, rfl, rfl, by simp [conforms, tensor, dimsOk]⟩
+    · simp [inferTreeEnsembleClassifier, ranked] at hi; subst hi
+      exact ⟨_, _, _, _, rfl, rfl, by simp [conforms, tensor, dimsOk]⟩
+    · simp only [conforms, Bool.and_eq_true] at hc
+      have hs := hc.2
+      rcases ds with _ | ⟨d0, _ | ⟨d1, _ | ⟨d2, r⟩⟩⟩ <;> simp [dimsOk] at hs
+      simp [inferTreeEnsembleClassifier, ranked] at hi; subst hi
+      exact ⟨_, _, _, _, rfl, rfl, by simp [conforms, tensor, dimsOk, hs.1]⟩
+
+/-- `len(class_ids) = 3` with two class labels: `Z` is reported `f32[4][3]`, the runtime value has
+    shape `(4,2)` (pinned by tests/type_inference/test_tree_ensemble_classifier.py). -/
+theorem treeEnsembleClassifier_counterexample :
+    ¬ TreeEnsembleClassifierSound (some 3) none (some 2) (tensor .f32 [.const 4, .const 2]) := by
+  intro h
+  have := h ⟨.f32, [4, 2]⟩ [tensor .i64 [.const 4], tensor .f32 [.const 4, .const 3]]
+    [⟨.i64, [4]⟩, ⟨.f32, [4, 2]⟩] (by decide) (by decide) (by decide)
+  revert this; decide
+
+/-! ## Compress -/
+
+theorem compress_sound (axis : Option Int) (x c : ITy) (vx vc : RtVal) (k : Nat) (outs : List ITy)
+    (w : List RtVal) (hi : inferCompress axis x c = .ok outs) (hcx : conforms vx x = true)
+    (_hcc : conforms vc c = true) (hr : rtCompress axis k vx = some w) : conformsAll w outs = true := by
+  obtain ⟨xe, xs⟩ := vx
+  rcases x with _ | ⟨e, s⟩
+  · simp [inferCompress] at hi
+  rcases c with _ | ct
+  · simp [inferCompress] at hi
+  simp only [conforms, Bool.and_eq_true, beq_iff_eq] at hcx
+  obtain ⟨hex, hsx⟩ := hcx
+  unfold inferCompress at hi
+  simp only at hi
+  split at hi
+  · simp at hi
+  · rcases s with _ | ds
+    · simp only [Res.ok.injEq] at hi; subst hi
+      unfold rtCompress at hr
+      split at hr
+      · simp at hr; subst hr; simp [conformsAll, conforms, hex]
+      · split at hr <;> simp at hr; subst hr; simp [conformsAll, conforms, hex]
+    · rcases ds with _ | ⟨d0, r⟩
+      · simp at hi
+      · simp only at hi hsx
+        split at hi
+        · simp at hi
+        · rcases axis with _ | a
+          · simp only [Res.ok.injEq] at hi; subst hi
+            simp only [rtCompress, Option.some.injEq] at hr; subst hr
+            simp [conformsAll, conforms, tensor, dimsOk, hex]
+          · have hlen := dimsOk_length hsx
+            simp only [rtCompress] at hr
+            simp only at hi
+            rw [hlen] at hr
+            split at hi
+            · simp at hi
+            · rename_i i hi'
+              rw [hi'] at hr
+              simp only [Res.ok.injEq] at hi; subst hi
+              simp only [Option.some.injEq] at hr; subst hr
+              simp [conformsAll, conforms, tensor, hex, dimsOk_set_anon i k hsx]
+
+/-! ## `_strip_dim_symbol`, inline -/
+
+/-- Forgetting symbolic dims only weakens a type. -/
+theorem stripDim_sound (pred : String → Bool) (v : RtVal) (t : Ty)
+    (h : conforms v (some t) = true) : conforms v (some (stripTy pred t)) = true := by
+  simp only [conforms, Bool.and_eq_true] at h ⊢
+  refine ⟨h.1, ?_⟩
+  rcases t with ⟨e, _ | ds⟩
+  · simp [stripTy]
+  · simpa [stripTy] using dimsOk_strip pred h.2
+
+/-- `strip` with the `unk__` predicate (what `infer_output_types_onnx` applies to ONNX's result). -/
+theorem stripUnk_sound (v : RtVal) (t : Ty) (h : conforms v (some t) = true) :
+    conforms v (some (stripTy (fun s => s.startsWith "unk__") t)) = true :=
+  stripDim_sound _ v t h
+
+/-- If the inlined model's declared output types are sound for the model (hypothesis `hm`: its
+    runtime outputs conform to them), the types spox reports for `inline(m)(…)` are sound. -/
+theorem inline_types_sound : ∀ (declared : List Ty) (ws : List RtVal),
+    conformsAll ws (declared.map some) = true → conformsAll ws (inlineTypes declared) = true
+  | [], [], _ => rfl
+  | [], _ :: _, h => by simp [conformsAll] at h
+  | _ :: _, [], h => by simp [conformsAll] at h
+  | t :: ts, w :: ws, h => by
+    simp only [List.map_cons, conformsAll, Bool.and_eq_true] at h
+    simp only [inlineTypes, List.map_cons, conformsAll, Bool.and_eq_true]
+    exact ⟨stripDim_sound _ w t h.1, inline_types_sound ts ws h.2⟩
+
+/-! ## Loop -/
+
+/-- Soundness of a Loop inference routine `inf` for the carried outputs, for declared argument /
+    initial types `a`, body result types `r`, scan result types `s`:
+    for every run — any trip count `M`, any initial condition, any body that (`hbody`) returns values
+    conforming to its result types whenever its carried arguments conform to their declared types and
+    (`hElem`) never changes element types — the final carried values conform to what is reported. -/
+def LoopCarriedSound (inf : List ITy → List ITy → List ITy → Res) (a r s : List Ty) : Prop :=
+  ∀ (outs : List ITy) (body : Body) (M : Nat) (c0 : Bool) (v0 fin : List RtVal)
+    (scs : List (List RtVal)),
+    inf (a.map some) (r.map some) (s.map some) = .ok outs →
+    conformsAll v0 (a.map some) = true →
+    (∀ i vs c vs' sc, conformsAll vs (a.map some) = true → body i vs = some (c, vs', sc) →
+        conformsAll vs' (r.map some) = true) →
+    (∀ i vs c vs' sc, body i vs = some (c, vs', sc) → elemsMatch vs' r = true) →
+    loopRun body M 0 c0 v0 = some (fin, scs) →
+    conformsAll fin (outs.take a.length) = true
+
+/-- The routine after the fix is sound for every program. -/
+theorem loop_carried_sound (a r s : List Ty) (hlen : a.length = r.length) :
+    LoopCarriedSound inferLoop a r s := by
+  intro outs body M c0 v0 fin scs hi hinit hbody hElem hrun
+  simp only [inferLoop, allTyped_map_some] at hi
+  split at hi
+  · simp at hi
+  · rename_i hag
+    simp only [Bool.not_eq_true', Bool.not_eq_false] at hag
+    simp only [Res.ok.injEq] at hi
+    subst hi
+    by_cases hst : allRefine a r = true
+    · simp only [hst, if_true]
+      rw [List.take_left' (zipCommon_length a r hlen)]
+      have hfin : conformsAll fin (a.map some) = true :=
+        loopRun_inv (fun vs => conformsAll vs (a.map some) = true) body
+          (fun i vs c vs' sc hp hb =>
+            conformsAll_refines vs' a r hst hlen (hbody i vs c vs' sc hp hb))
+          M 0 c0 v0 fin scs hinit hrun
+      exact conformsAll_zipCommon fin a r hst hlen hfin
+    · simp only [Bool.not_eq_true] at hst
+      simp only [hst, Bool.false_eq_true, if_false]
+      rw [List.take_left' (onnxCarried_length a)]
+      have hfin : elemsMatch fin a = true :=
+        loopRun_inv (fun vs => elemsMatch vs a = true) body
+          (fun i vs c vs' sc _ hb => elemsMatch_agree vs' a r hag hlen (hElem i vs c vs' sc hb))
+          M 0 c0 v0 fin scs (elemsMatch_of_conformsAll v0 a hinit) hrun
+      exact conformsAll_onnxCarried fin a hfin
+
+/-- While every result refines its argument's declared type, the types prescribed for the body's
+    carried arguments are sound: each iteration's carried inputs conform to them (this is the
+    invariant behind `loop_carried_sound`, stated for the values a run ends with). -/
+theorem loop_body_args_sound (a r : List Ty) (hlen : a.length = r.length)
+    (hst : allRefine a r = true) (body : Body) (M i : Nat) (c0 : Bool) (v0 fin : List RtVal)
+    (scs : List (List RtVal)) (hinit : conformsAll v0 (a.map some) = true)
+    (hbody : ∀ i vs c vs' sc, conformsAll vs (a.map some) = true → body i vs = some (c, vs', sc) →
+        conformsAll vs' (r.map some) = true)
+    (hrun : loopRun body M i c0 v0 = some (fin, scs)) : conformsAll fin (a.map some) = true :=
+  loopRun_inv (fun vs => conformsAll vs (a.map some) = true) body
+    (fun i vs c vs' sc hp hb => conformsAll_refines vs' a r hst hlen (hbody i vs c vs' sc hp hb))
+    M i c0 v0 fin scs hinit hrun
+
+/-- The routine as pinned is unsound: `loop(M=0, v_initial=[x: f32[2]], body = concat(v, v))` reports
+    `f32[4]`; the loop never runs and returns `x`, of shape `(2,)`. -/
+theorem loop_carried_pinned_counterexample :
+    ¬ LoopCarriedSound inferLoopPinned [⟨.f32, some [.const 2]⟩] [⟨.f32, some [.const 4]⟩] [] := by
+  intro h
+  have := h [some ⟨.f32, some [.const 4]⟩] (fun _ _ => some (true, [⟨.f32, [4]⟩], [])) 0 true
+    [⟨.f32, [2]⟩] [⟨.f32, [2]⟩] [] (by decide) (by decide)
+    (by intro i vs c vs' sc _ hb
+        simp only [Option.some.injEq, Prod.mk.injEq] at hb
+        rw [← hb.2.1]; decide)
+    (by intro i vs c vs' sc hb
+        simp only [Option.some.injEq, Prod.mk.injEq] at hb
+        rw [← hb.2.1]; decide)
+    (by decide)
+  revert this; decide
+
+/-- The same program under the fixed routine: `f32[...]`-free but sound (`f32[?]`). -/
+example : inferLoop [tensor .f32 [.const 2]] [tensor .f32 [.const 4]] [] = .ok [some ⟨.f32, none⟩] := by
+  decide
+
+/-- A scan output stacks the slices of `k ≥ 1` iterations: if the slice conforms to the type the body
+    declares for that result, the stacked value conforms to the reported scan type (one leading
+    unknown dim). -/
+theorem loop_scan_sound (v : RtVal) (vs : List RtVal) (t : Ty) (w : RtVal)
+    (hc : conforms v (some t) = true) (hs : stackScan (v :: vs) = some w) :
+    conforms w (some (scanTy t)) = true := by
+  simp only [stackScan] at hs
+  split at hs
+  · simp only [Option.some.injEq] at hs; subst hs
+    simp only [conforms, Bool.and_eq_true] at hc ⊢
+    refine ⟨hc.1, ?_⟩
+    rcases t with ⟨e, _ | ds⟩
+    · simp [scanTy]
+    · simpa [scanTy, dimsOk] using hc.2
+  · simp at hs
+
+/-- Scan outputs of a loop that runs at least once (`stackScan … = some w` forces that): scan output
+    `j` conforms to the reported type "one leading unknown dim, then the body's declared type for that
+    result" — for every body that is sound for its first iteration's inputs, whether or not later
+    iterations respect the declared argument types (all slices must have the first slice's shape). -/
+theorem loop_scan_output_sound (a s : List Ty) (body : Body) (M : Nat) (c0 : Bool)
+    (v0 fin : List RtVal) (scs : List (List RtVal)) (j : Nat) (t : Ty) (w : RtVal)
+    (hinit : conformsAll v0 (a.map some) = true)
+    (hbody : ∀ i vs c vs' sc, conformsAll vs (a.map some) = true → body i vs = some (c, vs', sc) →
+        conformsAll sc (s.map some) = true)
+    (hrun : loopRun body M 0 c0 v0 = some (fin, scs)) (hj : s[j]? = some t)
+    (hs : stackScan (column scs j) = some w) : conforms w (some (scanTy t)) = true := by
+  cases M with
+  | zero =>
+    simp only [loopRun, Option.some.injEq, Prod.mk.injEq] at hrun
+    rw [← hrun.2] at hs; simp [column, stackScan] at hs
+  | succ m =>
+    cases c0 with
+    | false =>
+      simp only [loopRun, Option.some.injEq, Prod.mk.injEq] at hrun
+      rw [← hrun.2] at hs; simp [column, stackScan] at hs
+    | true =>
+      simp only [loopRun] at hrun
+      split at hrun
+      · simp at hrun
+      · rename_i c vs' sc hb
+        split at hrun
+        · simp at hrun
+        · rename_i fin' scs' _
+          simp only [Option.some.injEq, Prod.mk.injEq] at hrun
+          have hsc := hbody 0 v0 c vs' sc hinit hb
+          obtain ⟨v, hv, hc⟩ := conformsAll_get sc s j t hsc hj
+          rw [← hrun.2] at hs
+          have hcol : column (sc :: scs') j = v :: column scs' j := by
+            simp [column, List.filterMap_cons, hv]
+          rw [hcol] at hs
+          exact loop_scan_sound v (column scs' j) t w hc hs
+
+/-! ## Non-vacuity: the hypotheses of the theorems are satisfiable and the conclusions say something -/
+
+example : inferScaler (some 2) (some 2) (tensor .f64 [.named "N", .const 2]) = .ok [tensor .f32 [.named "N", .const 2]] := by decide
+example : conforms ⟨.f32, [5, 2]⟩ (tensor .f32 [.named "N", .const 2]) = true := by decide
+example : conforms ⟨.f32, [5, 3]⟩ (tensor .f32 [.named "N", .const 2]) = false := by decide
+example : conforms ⟨.f32, [5]⟩ (tensor .f32 [.named "N", .const 2]) = false := by decide
+example : conforms ⟨.f64, [5, 2]⟩ (tensor .f32 [.named "N", .const 2]) = false := by decide
+example : inferArrayFeatureExtractor (tensor .f32 [.const 5, .anon, .const 7]) (tensor .i64 [.named "K"])
+    = .ok [tensor .f32 [.const 5, .anon, .named "K"]] := by decide
+example : rtArrayFeatureExtractor ⟨.f32, [5, 1, 7]⟩ ⟨.i64, [3]⟩ = some [⟨.f32, [5, 1, 3]⟩] := by decide
+example : inferCompress (some (-1)) (tensor .f32 [.const 2, .const 3]) (tensor .bool [.const 3])
+    = .ok [tensor .f32 [.const 2, .anon]] := by decide
+example : rtCompress (some (-1)) 1 ⟨.f32, [2, 3]⟩ = some [⟨.f32, [2, 1]⟩] := by decide
+example : inferLoop [tensor .i64 [.named "N", .const 2]] [tensor .i64 [.named "N", .const 2]] [tensor .i64 [.const 1]]
+    = .ok [tensor .i64 [.named "N", .const 2], tensor .i64 [.anon, .const 1]] := by decide
+example : loopRun (fun _ vs => some (true, vs, [])) 3 0 true [⟨.f32, [2]⟩] = some ([⟨.f32, [2]⟩], [[], [], []]) := by decide
+
+end C06M
